@@ -156,7 +156,7 @@ pub fn gen_cfg(rng: &mut Rng, keys: u32, pressure: Pressure, ttl_possible: bool,
     }
     Cfg {
         weight,
-        capacity: 16,
+        capacity: *rng.pick(&[1usize, 2, 3, 4, 16, 16, 16, 16]),
         counters: *rng.pick(&[2u64, 3, 7, 16, 64, 100]),
         shards: *rng.pick(&[2usize, 2, 4, 8]),
         queue: if rng.chance(p.tiny_queue_pct, 100) { *rng.pick(&[1usize, 1, 2]) } else { *rng.pick(&[4usize, 64]) },
